@@ -805,11 +805,16 @@ func (w *c04World) setParams(ref, pol, ppt int64) {
 	q := func(v int64) []byte { return []byte(fmt.Sprintf("%q", fmt.Sprint(v))) }
 	var e1, e2, e3 error
 	if pn := Guard(func() {
-		e1 = ss.Update(w.e.Ctx, storagetypes.KeyReferrals, q(ref))
-		e2 = ss.Update(w.e.Ctx, storagetypes.KeyPOLRatio, q(pol))
-		e3 = ss.Update(w.e.Ctx, storagetypes.KeyPricePerTbPerMonth, q(ppt))
+		// the names a proposal author writes, spelled out here rather than taken from the code's constants
+		e1 = ss.Update(w.e.Ctx, []byte("Referrals"), q(ref))
+		e2 = ss.Update(w.e.Ctx, []byte("POLRatio"), q(pol))
+		e3 = ss.Update(w.e.Ctx, []byte("PricePerTbPerMonth"), q(ppt))
 	}); pn == "" && e1 == nil && e2 == nil && e3 == nil {
 		w.r.Hist("params-route", "governance")
+		if p := w.params(); p.ReferralCommission != ref || p.PolRatio != pol || p.PricePerTbPerMonth != ppt {
+			w.finding("C04/params/key-names-a-different-parameter", fmt.Sprintf("passed proposals set storage/Referrals=%d, storage/POLRatio=%d, storage/PricePerTbPerMonth=%d; the module now reads ReferralCommission=%d PolRatio=%d PricePerTbPerMonth=%d, and splits the next payments accordingly",
+				ref, pol, ppt, p.ReferralCommission, p.PolRatio, p.PricePerTbPerMonth), map[string]interface{}{"op": "ParameterChangeProposal", "Referrals": ref, "POLRatio": pol, "PricePerTbPerMonth": ppt}, nil)
+		}
 		return
 	}
 	p := w.params()
@@ -1073,6 +1078,14 @@ func c04History(r *RunCtx, p *PRNG, k int) error {
 			}
 		}
 	}
+	// exabyte files kept for months: kilobytes x hours beyond 2^63 (the validation only bounds FileSize*MaxProofs)
+	if e.Height > 0 {
+		for i, big := range [][3]int64{{9_000_000_000_000_000_000, 1, 1_230_000}, {3_000_000_000_000_000_000, 3, 14_400 * 120}, {1 << 62, 2, 14_400*365*3 + 7}} {
+			if err := w.post(c04Post{Creator: 1 + i%2, Size: big[0], MaxProofs: big[1], Expires: e.Height + big[2], Note: "{}", Merkle: fmt.Sprintf("exa%d", i)}); err != nil {
+				return err
+			}
+		}
+	}
 	// the same merkle posted twice in one block by one creator, the second time much larger: the replacement is a
 	// new one-time payment and must be charged its own price
 	if e.Height > 0 {
@@ -1187,7 +1200,7 @@ func c04History(r *RunCtx, p *PRNG, k int) error {
 		default:
 			// PostFile: mostly pay-once, some plan-paid, a few malformed
 			c := 1 + p.Intn(5)
-			b := c04Post{Creator: c, CreatorUp: false, Size: PickOne(p, []int64{1, 1000, 1_023_999, 1_024_000, 1_024_001, 5_000_000, 1 << 33}), MaxProofs: PickOne(p, []int64{1, 3, 3, 10}), Note: "{}", Merkle: fmt.Sprintf("f%d", p.Intn(6))}
+			b := c04Post{Creator: c, CreatorUp: false, Size: PickOne(p, []int64{1, 1000, 1_023_999, 1_024_000, 1_024_001, 5_000_000, 1 << 33, 1 << 33, 7_000_000_000_000_000, 900_000_000_000_000_000}), MaxProofs: PickOne(p, []int64{1, 3, 3, 10}), Note: "{}", Merkle: fmt.Sprintf("f%d", p.Intn(6))}
 			hgt := e.Height
 			switch p.Intn(12) {
 			case 0:
